@@ -75,6 +75,9 @@ def run(tier):
     chk.clause('C09.bcopy', 'the in-place shift of the caller workspace copies every byte of the block (no residue of earlier contents)')
     _expand.bcopy_rule(chk, 'C09.bcopy', _pg, 'tested')
     from ..rules import misc as _misc
+    chk.clause('C09.slot', 'a slot reserved for the fill position of an empty ILU column is written before the pivot search reads it')
+    for _p in 'sdcz':
+        _misc.reserved_slot_rule(chk, 'C09.slot', _pg, _p, 'tested')
     chk.clause('R1.vii', 'output-only arguments do not steer the computation (usepr only for SamePattern_SameRowPerm)')
     _ps = Program.load(which=('SRC',), cfg='tested')
     for p in 'sdcz':
